@@ -1,3 +1,4 @@
+pub mod chars;
 pub mod model;
 pub mod par;
 pub mod run;
